@@ -411,7 +411,7 @@ class A:
         return self.x
 
     def outer(self, end_other_call):
-        """Breaks the invariant temporarily; ends an unrelated suspended call of another object in the middle."""
+        """Breaks the invariant temporarily; ends an unrelated suspended call in the middle."""
         self.x = -1
         try:
             self.helper()
@@ -419,6 +419,27 @@ class A:
             return self.helper()
         finally:
             self.x = 0
+
+
+async def awaited_condition(tick):
+    await tick
+    return True
+
+
+async def awaited_capture(tick):
+    await tick
+    return 1
+
+
+@icontract.require(awaited_condition)
+async def suspended_in_precondition(tick):
+    return "done"
+
+
+@icontract.snapshot(awaited_capture, name="before")
+@icontract.ensure(lambda OLD, result: OLD.before == 1)
+async def suspended_in_capture(tick):
+    return "done"
 '''
 
 
@@ -430,10 +451,15 @@ def run_out_of_order_end(w) -> None:
     loaded = prog.load_source(OUT_OF_ORDER_SOURCE, w.scratch())
     mod, hub = loaded.module, loaded.hub
     try:
-        for how in ("close", "throw-CancelledError", "garbage-collection", "run-to-completion"):
+        for how, where in [(h, wh) for wh in ("method-body", "function-precondition", "function-capture")
+                           for h in ("close", "throw-CancelledError", "garbage-collection", "run-to-completion")]:
             a1, a2 = mod.A("a1"), mod.A("a2")
-            box = {"coro": a1.wait(probe.Tick("t"))}
-            box["coro"].send(None)  # suspended in the body of a1.wait; same context (no task)
+            # a call driven by hand (same context, no task), left suspended in the body of a method / in an awaited precondition /
+            # in an awaited capture
+            started = {"method-body": lambda: a1.wait(probe.Tick("t")), "function-precondition": lambda: mod.suspended_in_precondition(probe.Tick("t")),
+                       "function-capture": lambda: mod.suspended_in_capture(probe.Tick("t"))}[where]
+            box = {"coro": started()}
+            box["coro"].send(None)
 
             def end_other_call():
                 coro = box.pop("coro")
@@ -456,7 +482,7 @@ def run_out_of_order_end(w) -> None:
             hub.reset()
             w.count("followup_calls")
             w.count("out_of_order_endings")
-            w.case(("out-of-order-end", how))
+            w.case(("out-of-order-end", how, where))
             try:
                 res = a2.outer(end_other_call)
                 outcome = "returned {!r}".format(res)
@@ -465,9 +491,9 @@ def run_out_of_order_end(w) -> None:
             evs = [(e.kind, e.id) for e in hub.events]
             # a2's invariant is evaluated before and after outer; the two helper() calls in between are re-entrant
             if outcome != "returned -1":
-                w.violation("C11/check-in-progress-disturbed-by-the-end-of-another-call", "a suspended call on another object was ended by {} "
+                w.violation("C11/check-in-progress-disturbed-by-the-end-of-another-call", "a call suspended in a {} was ended by {} "
                             "inside a method whose invariant is temporarily broken: the method gave {} (events {}); its own re-entrant call "
-                            "must stay unchecked as before".format(how, outcome, evs), {"out_of_order": how})
+                            "must stay unchecked as before".format(where, how, outcome, evs), {"out_of_order": how, "where": where})
             # afterwards both objects are checked as in a fresh process
             for obj in (a1, a2):
                 hub.reset()
@@ -796,6 +822,37 @@ def run_line_faults(w) -> None:
         loaded.unload()
 
 
+def run_repo_suite_under_monitor(w) -> None:
+    """The repository's own tests as a workload: after each of them no live mark may be left in the context of the runner."""
+    import json  # pylint: disable=import-outside-toplevel
+    import os  # pylint: disable=import-outside-toplevel
+    import subprocess  # pylint: disable=import-outside-toplevel
+
+    from vkit import core  # pylint: disable=import-outside-toplevel
+
+    report = os.path.join(w.scratch(), "marks_report.json")
+    env = dict(os.environ, PYTHONPATH=core.REPO + os.pathsep + core.VERIF_DIR, VKIT_MARKS_REPORT=report, PYTHONDONTWRITEBYTECODE="1")
+    try:
+        res = subprocess.run([core.PYTHON, "-m", "pytest", "-q", "-p", "no:cacheprovider", "-p", "vkit.pytest_marks_plugin", "--timeout=600",
+                              "--ignore", "tests/test_mypy_decorators.py"], cwd=core.REPO, env=env, capture_output=True, text=True, timeout=900)
+    except subprocess.TimeoutExpired:
+        w.mark_inconclusive("the repository's suite under the mark monitor hit the watchdog")
+        return
+    if not os.path.exists(report):
+        w.mark_inconclusive("the repository's suite under the mark monitor wrote no report: {}".format((res.stdout + res.stderr)[-300:]))
+        return
+    with open(report) as fid:
+        rep = json.load(fid)
+    w.count("repository_tests_monitored", rep["tests"])
+    w.count("state_checks", rep["tests"])
+    w.case(("repository-suite",))
+    if rep["tests"] < 300:
+        w.mark_inconclusive("only {} tests of the repository's suite were monitored".format(rep["tests"]))
+    for nodeid, live in rep["leftovers"][:5]:
+        w.violation("C11/suspension-state-not-restored", "after the repository's test {} the in-progress variable still holds the live marks {}".format(
+            nodeid, live), {"repo_suite": nodeid})
+
+
 GROWTH_SOURCE = '''
 import icontract
 
@@ -895,6 +952,8 @@ def run(w) -> None:
         run_faulted_new(w)
     if w.shard == 3 % w.nshards:
         run_line_faults(w)
+    if w.tier == "thorough" and w.shard == 4 % w.nshards:
+        run_repo_suite_under_monitor(w)
     # (cheap, and on every shard: an implementation that accumulates leftovers slows every later call down, so that the fault
     # enumeration below would only hit the wall-clock watchdog - inconclusive - instead of reporting what is wrong)
     run_growth(w)
@@ -925,6 +984,9 @@ def replay(case, w) -> None:
         return
     if "line_fault" in case:
         run_line_faults(w)
+        return
+    if "repo_suite" in case:
+        run_repo_suite_under_monitor(w)
         return
     spec = case["prog"]
     model = Model(spec)
